@@ -690,6 +690,12 @@ fn graphs_for<K: Kmer + Send + Sync>(out: &mut Out, rng0: &mut Rng, tier: &Tier,
         if let Some(g) = graph_of_reads::<K>(&reads, stranded, 1) {
             export_cases(out, &mut rng, &g, true);
         }
+        // a node longer than K with a palindromic end k-mer, linked from the same-named end of a lower-numbered node
+        if k % 2 == 0 && it % 2 == 1 {
+            if let Some(g) = graph_pal_end::<K>(&mut rng) {
+                export_cases(out, &mut rng, &g, false);
+            }
+        }
         // arbitrary extension sets
         if it % 2 == 0 {
             let nn = rng.range(1, 6);
@@ -699,6 +705,48 @@ fn graphs_for<K: Kmer + Send + Sync>(out: &mut Out, rng0: &mut Rng, tier: &Tier,
             }
         }
     }
+}
+
+/// hand-assembled, even K, unstranded: node B is LONGER than K and starts with a k-mer P that is its own reverse
+/// complement; node A (lower id) reaches P by extending its own left end, so the link A(left) -> B(left) is resolved by the
+/// reverse-complement lookup with a palindromic key (compression never builds such a node - it isolates palindromic
+/// k-mers - but `BaseGraph::add` / imported graphs can; seeded change C20-m9).  With probability 1/2 the mirror image
+/// (palindromic LAST k-mer, right-to-right link).  Extensions are exactly the two facing bits: edge-symmetric.
+fn graph_pal_end<K: Kmer + Send + Sync>(rng: &mut Rng) -> Option<DebruijnGraph<K, u16>> {
+    let k = K::k();
+    if k % 2 != 0 {
+        return None;
+    }
+    let h: Vec<u8> = (0..k / 2).map(|_| rng.base()).collect();
+    let mut p: Vec<u8> = h.clone();
+    p.extend(rc_bytes(&h));
+    let z = rng.base();
+    let mut a: Vec<u8> = p[1..].to_vec();
+    a.push(z);
+    for _ in 0..rng.below(4) {
+        a.push(rng.base());
+    }
+    let mut bq: Vec<u8> = p.clone();
+    for _ in 0..rng.range(1, 4) {
+        bq.push(rng.base());
+    }
+    let mut ea = Exts::empty().set(Dir::Left, p[0]);
+    let mut eb = Exts::empty().set(Dir::Left, 3 - z);
+    if rng.chance(1, 2) {
+        a = rc_bytes(&a);
+        bq = rc_bytes(&bq);
+        ea = ea.rc();
+        eb = eb.rc();
+    }
+    let mut g: BaseGraph<K, u16> = BaseGraph::new(false);
+    if rng.chance(1, 2) {
+        // an unrelated node first, so that ids are not always 0 and 1
+        let c: Vec<u8> = (0..k + rng.below(3)).map(|_| rng.base()).collect();
+        g.add(c.iter(), Exts::empty(), 7);
+    }
+    g.add(a.iter(), ea, 1);
+    g.add(bq.iter(), eb, 2);
+    guard(std::panic::AssertUnwindSafe(move || g.finish()))
 }
 
 // ---------------------------------------------------------------- corpus: the witnesses of F4 / F5
